@@ -10,15 +10,19 @@ open Engine Sorter
 /-- `pytask_execute_task_setup` in the extracted order: provisional (tryfirst), skipping, persist, execute. -/
 theorem setupChain_eval (s : Sess) (t : Nat) :
     setupChain t Generated.setupOrder s =
-      (if (setupProvisional s t).failMarks.contains t then (setupProvisional s t, Raised.ancestorFailed)
+      (if failMarked (setupProvisional s t) t then (setupProvisional s t, Raised.ancestorFailed)
        else setupExecute (setupProvisional s t) t) := by
   simp only [Generated.setupOrder, setupChain, setupImpl]
   simp only [String.reduceBEq, Bool.false_eq_true, if_false, if_true]
-  by_cases h : t ∈ (setupProvisional s t).failMarks
+  by_cases h : failMarked (setupProvisional s t) t = true
   · simp [h]
-  · simp only [List.contains_iff_mem, h, if_false]
+  · simp only [h, Bool.false_eq_true, if_false]
     cases hse : setupExecute (setupProvisional s t) t with
-    | mk s' r => cases r <;> rfl
+    | mk s' r => cases r <;> simp [hse]
+
+/-- No `skip_ancestor_failed` mark, neither from the time an ancestor failed nor renewed by a later `recreate_dag`. -/
+theorem failMarked_false {s : Sess} {t : Nat} (h1 : t ∉ s.failMarks) (h2 : t ∉ s.renewed) : failMarked s t = false := by
+  simp [failMarked, h1, h2]
 
 /-- `pytask_execute_task` in the extracted order (profile wrapper, provisional, execute; firstresult):
 a generator is run by the `provisional` implementation only — its non-`None` result ends the chain. -/
@@ -805,7 +809,7 @@ theorem runPhases_obs (Y : YieldFn) (F : BodyFn) (s : Sess) (t : Nat) (tk : PTas
   have hid : tk1.id = t := findTask_id hsp.2
   unfold runPhases
   rw [setupChain_eval]
-  by_cases hfm : (setupProvisional s t).failMarks.contains t = true
+  by_cases hfm : failMarked (setupProvisional s t) t = true
   · simp only [hfm, if_true]
     left; exact ⟨hsp.1.2.1, hsp.1.2.2.1, hsp.1.1⟩
   · simp only [hfm, Bool.false_eq_true, if_false]
@@ -1017,6 +1021,7 @@ theorem scanP_changed (P : Project) (g : G) (w : World) (pn : List Nat) (t : Nat
 /-- The consumer's setup does not raise `SkippedUnchanged`: either the body is called or the task fails. -/
 theorem runPhases_not_unchanged (Y : YieldFn) (F : BodyFn) (s : Sess) (t : Nat) (tk : PTask)
     (hf : findTask s.tasks t = some tk) (hng : tk.gen = false) (hfm : t ∉ s.failMarks)
+    (hrn : t ∉ (setupProvisional s t).renewed)
     (hscan : scanP (toProject (setupProvisional s t).tasks) (setupProvisional s t).g (setupProvisional s t).w
         (provNodes (setupProvisional s t).tasks) t false (neighbours (setupProvisional s t).g t) ≠ Scan.unchanged) :
     (runPhases Y F s t).1.log = s.log ++ [t] ∨ (runPhases Y F s t).2 = Raised.error := by
@@ -1025,8 +1030,8 @@ theorem runPhases_not_unchanged (Y : YieldFn) (F : BodyFn) (s : Sess) (t : Nat) 
   have hid : (resolvedDeps s.w.fs tk).id = t := findTask_id hsp.2
   unfold runPhases
   rw [setupChain_eval]
-  have hfm' : (setupProvisional s t).failMarks.contains t = false := by
-    rw [hsp.1.2.2.2.1]; simpa using hfm
+  have hfm' : failMarked (setupProvisional s t) t = false :=
+    failMarked_false (by rw [hsp.1.2.2.2.1]; exact hfm) hrn
   simp only [hfm', Bool.false_eq_true, if_false]
   have hse : setupExecute (setupProvisional s t) t = (setupProvisional s t, Raised.none) ∨
       setupExecute (setupProvisional s t) t = (setupProvisional s t, Raised.error) := by
@@ -1179,6 +1184,7 @@ theorem complete_all_done {ts0 : List PTask} {s : Sess} {h : List Nat} (hi : LIn
 `session.tasks`. -/
 theorem protocol_gen_tasks (Y : YieldFn) (F : BodyFn) (s : Sess) (g : Nat) (G : PTask) (hf : findTask s.tasks g = some G)
     (hgen : G.gen = true) (hnf : G.fails = false) (hfm : g ∉ s.failMarks)
+    (hrn : g ∉ (setupProvisional s g).renewed)
     (hcoll : ∀ x ∈ Y g (received (resolvedDeps s.w.fs G)), x.uncollectable = false) (k : PTask)
     (hk : k ∈ Y g (received (resolvedDeps s.w.fs G))) : k ∈ (protocol Y F s g).tasks := by
   have hsp := setupProvisional_spec s g G hf
@@ -1190,8 +1196,8 @@ theorem protocol_gen_tasks (Y : YieldFn) (F : BodyFn) (s : Sess) (g : Nat) (G : 
   rw [(reportChain_frame _ g _).1]
   unfold runPhases
   rw [setupChain_eval]
-  have hfm' : (setupProvisional s g).failMarks.contains g = false := by
-    rw [hsp.1.2.2.2.1]; simpa using hfm
+  have hfm' : failMarked (setupProvisional s g) g = false :=
+    failMarked_false (by rw [hsp.1.2.2.2.1]; exact hfm) hrn
   simp only [hfm', Bool.false_eq_true, if_false]
   have hse : setupExecute (setupProvisional s g) g = (setupProvisional s g, Raised.none) := by
     unfold setupExecute; rw [hsp.2]; simp [hgen1]
@@ -1442,6 +1448,7 @@ theorem stateOf_tv {ts : List PTask} {t : Nat} {tk : PTask} (w : World) (h : fin
 /-- If the change scan answers "changed", the task function is called (whatever it then does). -/
 theorem runPhases_changed (Y : YieldFn) (F : BodyFn) (s : Sess) (t : Nat) (tk : PTask)
     (hf : findTask s.tasks t = some tk) (hng : tk.gen = false) (hfm : t ∉ s.failMarks)
+    (hrn : t ∉ (setupProvisional s t).renewed)
     (hscan : scanP (toProject (setupProvisional s t).tasks) (setupProvisional s t).g (setupProvisional s t).w
         (provNodes (setupProvisional s t).tasks) t false (neighbours (setupProvisional s t).g t) = Scan.changed) :
     (runPhases Y F s t).1.log = s.log ++ [t] := by
@@ -1450,8 +1457,8 @@ theorem runPhases_changed (Y : YieldFn) (F : BodyFn) (s : Sess) (t : Nat) (tk : 
   have hid : (resolvedDeps s.w.fs tk).id = t := findTask_id hsp.2
   unfold runPhases
   rw [setupChain_eval]
-  have hfm' : (setupProvisional s t).failMarks.contains t = false := by
-    rw [hsp.1.2.2.2.1]; simpa using hfm
+  have hfm' : failMarked (setupProvisional s t) t = false :=
+    failMarked_false (by rw [hsp.1.2.2.2.1]; exact hfm) hrn
   simp only [hfm', Bool.false_eq_true, if_false]
   have hse : setupExecute (setupProvisional s t) t = (setupProvisional s t, Raised.none) := by
     unfold setupExecute
@@ -1714,7 +1721,7 @@ theorem protocol_twp (Y : YieldFn) (F : BodyFn) (s : Sess) (t : Nat) : TwpExt t 
   refine TwpExt.trans ?_ (TwpExt.of_eq (reportChain_frame _ t _).2.2.2.2.2.2.1)
   unfold runPhases
   rw [setupChain_eval]
-  by_cases hfm : (setupProvisional s t).failMarks.contains t = true
+  by_cases hfm : failMarked (setupProvisional s t) t = true
   · simp only [hfm, if_true]; exact setupProvisional_twp s t
   · simp only [hfm, Bool.false_eq_true, if_false]
     have h1 := (setupProvisional_twp s t).trans (setupExecute_twp (setupProvisional s t) t)
@@ -1797,7 +1804,7 @@ def failReport (s : Sess) (k : Nat) : Sess := { addReport s k .fail with failMar
 theorem protocol_plain (Y : YieldFn) (F : BodyFn) (s : Sess) (k : Nat) (K : PTask) (hf : findTask s.tasks k = some K)
     (hng : K.gen = false) (hpd : K.pdeps = []) (hpp : K.pprods = []) (htw : k ∉ s.twp) :
     protocol Y F s k =
-      (if k ∈ s.failMarks then addReport s k .skipPrevFailed
+      (if failMarked s k then addReport s k .skipPrevFailed
        else match scanP (toProject s.tasks) s.g s.w (provNodes s.tasks) k false (neighbours s.g k) with
         | .missing => failReport s k
         | .unchanged => addReport s k .skipUnchanged
@@ -1821,12 +1828,11 @@ theorem protocol_plain (Y : YieldFn) (F : BodyFn) (s : Sess) (k : Nat) (K : PTas
     intro s' hf'; unfold isGen; rw [hf']; exact hng
   unfold protocol runPhases
   rw [setupChain_eval, hsp]
-  by_cases hfm : k ∈ s.failMarks
-  · have : s.failMarks.contains k = true := by simpa using hfm
-    simp only [this, if_true, hfm]
+  by_cases hfm : failMarked s k = true
+  · simp only [hfm, if_true]
     rw [reportChain_eval]
-  · have : s.failMarks.contains k = false := by simpa using hfm
-    simp only [this, Bool.false_eq_true, if_false, hfm]
+  · have hfm0 : failMarked s k = false := by simpa using hfm
+    simp only [hfm0, Bool.false_eq_true, if_false]
     unfold setupExecute
     rw [hf]
     simp only [hng, Bool.false_eq_true, if_false]
@@ -1913,11 +1919,11 @@ theorem list_ne_append_singleton {α} (l : List α) (a : α) : l ≠ l ++ [a] :=
 /-- **unchanged ⇒ skipped** for a pattern-free task: with everything recorded, the protocol only appends `SKIP_UNCHANGED`. -/
 theorem plain_skip (Y : YieldFn) (F : BodyFn) (s : Sess) (k : Nat) (K : PTask) (m : List Nat)
     (hdag : createDag (toProject s.tasks) {} = .ok (s.g, m)) (hf : findTask s.tasks k = some K)
-    (hng : K.gen = false) (hpd : K.pdeps = []) (hpp : K.pprods = []) (htw : k ∉ s.twp) (hfm : k ∉ s.failMarks)
+    (hng : K.gen = false) (hpd : K.pdeps = []) (hpp : K.pprods = []) (htw : k ∉ s.twp) (hfm : k ∉ s.failMarks) (hrn : k ∉ s.renewed)
     (huniq : ∀ u ∈ s.tasks, u.id = k → u = K) (hafter : K.after = []) (hrec : Recorded s.w K) :
     protocol Y F s k = addReport s k .skipUnchanged := by
   rw [protocol_plain Y F s k K hf hng hpd hpp htw]
-  simp only [hfm, if_false]
+  simp only [failMarked_false hfm hrn, Bool.false_eq_true, if_false]
   rw [scanP_unchanged_of_rows _ _ _ _ _ _ (neighbours_rows hdag k K hf huniq hafter s.w hrec)]
 
 /-- **success ⇒ recorded**: if the body of a pattern-free task ran, the task did not fail and nothing crashed, then all
@@ -1929,10 +1935,10 @@ theorem plain_records (Y : YieldFn) (F : BodyFn) (s : Sess) (k : Nat) (K : PTask
     (hcr : (protocol Y F s k).crashed = false) : Recorded (protocol Y F s k).w K := by
   have hid : K.id = k := findTask_id hf
   rw [protocol_plain Y F s k K hf hng hpd hpp htw] at hlog hnf hcr ⊢
-  by_cases hfm : k ∈ s.failMarks
+  by_cases hfm : failMarked s k = true
   · simp only [hfm, if_true, addReport] at hlog
     exact absurd hlog (list_ne_append_singleton _ _)
-  · simp only [hfm, if_false] at hlog hnf hcr ⊢
+  · simp only [hfm, Bool.false_eq_true, if_false] at hlog hnf hcr ⊢
     cases hsc : scanP (toProject s.tasks) s.g s.w (provNodes s.tasks) k false (neighbours s.g k) with
     | missing => rw [hsc] at hlog; simp only [failReport, addReport] at hlog; exact absurd hlog (list_ne_append_singleton _ _)
     | unchanged => rw [hsc] at hlog; simp only [addReport] at hlog; exact absurd hlog (list_ne_append_singleton _ _)
@@ -1972,7 +1978,7 @@ theorem plain_records (Y : YieldFn) (F : BodyFn) (s : Sess) (k : Nat) (K : PTask
 nothing missing. -/
 theorem plain_runs (Y : YieldFn) (F : BodyFn) (s : Sess) (k : Nat) (K : PTask) (m : List Nat)
     (hdag : createDag (toProject s.tasks) {} = .ok (s.g, m)) (hf : findTask s.tasks k = some K)
-    (hng : K.gen = false) (hpd : K.pdeps = []) (hpp : K.pprods = []) (htw : k ∉ s.twp) (hfm : k ∉ s.failMarks)
+    (hng : K.gen = false) (hpd : K.pdeps = []) (hpp : K.pprods = []) (htw : k ∉ s.twp) (hfm : k ∉ s.failMarks) (hrn : k ∉ s.renewed)
     (huniq : ∀ u ∈ s.tasks, u.id = k → u = K) (hafter : K.after = [])
     (d : Nat) (hd : d ∈ K.allDeps) (hch : hasChanged s.w k (nv d) (lookup s.w.fs d) = true)
     (hex : ∀ x ∈ K.allDeps, (lookup s.w.fs x).isSome = true) (hsrc : (lookup s.w.fs K.src).isSome = true) :
@@ -1993,7 +1999,7 @@ theorem plain_runs (Y : YieldFn) (F : BodyFn) (s : Sess) (k : Nat) (K : PTask) (
       · rw [huniq u hu huid] at ha; exact absurd hafter ha
     · rw [stateOf_tv _ hf]; exact hsrc)
   rw [protocol_plain Y F s k K hf hng hpd hpp htw]
-  simp only [hfm, if_false, scan_cases _ hne1 hne2]
+  simp only [failMarked_false hfm hrn, Bool.false_eq_true, if_false, scan_cases _ hne1 hne2]
   split
   · simp [failReport, addReport, afterBody, invoke, hid]
   · split <;> simp [addReport, afterBody, invoke, hid]
@@ -2001,7 +2007,8 @@ theorem plain_runs (Y : YieldFn) (F : BodyFn) (s : Sess) (k : Nat) (K : PTask) (
 /-- Generators are executed in every build (by design: their states are never recorded, `needs_to_be_executed = … or
 is_task_generator(task)`): unless skipped because an ancestor failed, the generator function is called. -/
 theorem protocol_gen_log (Y : YieldFn) (F : BodyFn) (s : Sess) (g : Nat) (G : PTask) (hf : findTask s.tasks g = some G)
-    (hgen : G.gen = true) (hfm : g ∉ s.failMarks) : (protocol Y F s g).log = s.log ++ [g] := by
+    (hgen : G.gen = true) (hfm : g ∉ s.failMarks) (hrn : g ∉ (setupProvisional s g).renewed) :
+    (protocol Y F s g).log = s.log ++ [g] := by
   have hsp := setupProvisional_spec s g G hf
   have hgen1 : (resolvedDeps s.w.fs G).gen = true := by unfold resolvedDeps; split <;> exact hgen
   have hid : (resolvedDeps s.w.fs G).id = g := findTask_id hsp.2
@@ -2010,8 +2017,8 @@ theorem protocol_gen_log (Y : YieldFn) (F : BodyFn) (s : Sess) (g : Nat) (G : PT
   rw [(reportChain_frame _ g _).2.2.2.2.1]
   unfold runPhases
   rw [setupChain_eval]
-  have hfm' : (setupProvisional s g).failMarks.contains g = false := by
-    rw [hsp.1.2.2.2.1]; simpa using hfm
+  have hfm' : failMarked (setupProvisional s g) g = false :=
+    failMarked_false (by rw [hsp.1.2.2.2.1]; exact hfm) hrn
   simp only [hfm', Bool.false_eq_true, if_false]
   have hse : setupExecute (setupProvisional s g) g = (setupProvisional s g, Raised.none) := by
     unfold setupExecute; rw [hsp.2]; simp [hgen1]
